@@ -341,6 +341,11 @@ def lexical_arm(ctx, res):
             res.inconclusive.append(f"lexical counterexample does not reproduce natively: {site} e.g. {text!r}")
             continue
         res.validated += 1
+        kf = next((k for k in ctx.known if re.search(k["site"], "lexical|" + site)), None)
+        if kf is not None:
+            if not any(h.startswith(kf["id"] + ":") for h in res.known_hits):
+                res.known_hits.append(f"{kf['id']}: {kf.get('what', '')} (e.g. {text!r})")
+            continue
         what = {"site": "lexical|" + site, "paths": info["count"], "text": text, "arrangement": task,
                 "meaning": "a program that uses this identifier spelling gets another token table than the same program with another name"}
         rp = os.path.join(ctx.replay_dir, "lex_" + hashlib.sha1(site.encode()).hexdigest()[:10] + ".json")
